@@ -420,6 +420,9 @@ func c03RunCtx(cs c03Case) (res c03Res) {
 		}
 		l := connObs{Events: evs, Base: evs[0].ID - 1, Known: known}.build()
 		res.Conn = &l
+		k := &chanClassifier{victims: abandonedIDs}
+		res.ChanObs = chanObsTokens(evs, evs[0].ID-1, nil, k)
+		res.ChanClass = k.Counts
 	}
 	// one process per run of this family: whatever a late reply may have left behind in package-level state
 	// (a pooled channel holding a stale result, say) must not leak into the next case's attribution
